@@ -102,9 +102,15 @@ def scnStep (op impl : String) : StepOut := Id.run do
           if o.closedAt > ghostStart + period + o.pto + timerGranularity then
             fails := fails ++ [("idle_not_late", "-", s!"{sd}: closed {o.closedAt - ghostStart} ns after the first ack-eliciting packet sent since the last packet received, period {period}, PTO {o.pto}")]
           -- the period is the negotiated one
-          let want := if sd == "c" then negotiatedIdle idleNs sidleNs else negotiatedIdle sidleNs idleNs
+          -- written from RFC 9000 10.1 and the stated clamp, not from the model: both in-tree endpoints always
+          -- advertise a non-zero value (populateConfig; Marshal always writes max_idle_timeout), a received value
+          -- below MinRemoteIdleTimeout counts as MinRemoteIdleTimeout, the effective value is the minimum
+          let own := if sd == "c" then idleNs else sidleNs
+          let peerAdv := if sd == "c" then sidleNs else idleNs
+          let peerSeen := if peerAdv < Uquic.Gen.Protocol.MinRemoteIdleTimeout then Uquic.Gen.Protocol.MinRemoteIdleTimeout else peerAdv
+          let want := if own < peerSeen then own else peerSeen
           if cause ≠ "hsdead" && cause ≠ "hsstall" && o.it ≠ want then
-            fails := fails ++ [("idle_period_negotiated", "-", s!"{sd}: idle timeout {o.it}, expected {want}")]
+            fails := fails ++ [("negotiated_idle_rfc", "-", s!"{sd}: own max_idle_timeout {own}, peer's {peerAdv}: idle timeout in use {o.it}, expected {want}")]
       | none => pure ()
   -- ---------- leak / routing
   if field impl "leak" ≠ "0" then
